@@ -19,7 +19,7 @@ TInit == Init /\ pos = 0 /\ obsMade = made /\ obsPhase = "build"
 TReset ==
   /\ Adv /\ R.ev = "reset"
   /\ phase' = "build" /\ calls' = <<>> /\ tok' = 0 /\ factories' = <<>> /\ sockets' = <<>> /\ nw' = 0 /\ svc' = <<>>
-  /\ made' = [c \in 1..MaxCalls |-> 0] /\ failNext' = 0 /\ dead' = 0 /\ events' = <<>> /\ done' = FALSE
+  /\ made' = [c \in 1..MaxCalls |-> 0] /\ failNext' = 0 /\ pend' = {} /\ waiting' = <<>> /\ dead' = 0 /\ events' = <<>> /\ done' = FALSE
   /\ obsMade' = [c \in 1..MaxCalls |-> 0] /\ obsPhase' = "build"
 TCall ==
   /\ Adv /\ R.ev = "call"
@@ -40,15 +40,22 @@ TConn ==
 TEnd == Adv /\ R.ev \in {"end", "survived"} /\ UNCHANGED <<vars, obsMade, obsPhase>>
 TFail == Adv /\ R.ev = "fail" /\ FailReady(R.c) /\ UNCHANGED <<obsMade, obsPhase>>
 TDie == Adv /\ R.ev = "die" /\ Die /\ UNCHANGED <<obsMade, obsPhase>>
+TPend == Adv /\ R.ev = "pend" /\ Pend(R.c) /\ UNCHANGED <<obsMade, obsPhase>>
+\* R.late: what the clients that waited were answered with after the last pending call became ready (arrival order)
+TUnpend == Adv /\ R.ev = "unpend" /\ UnpendObs(R.c, R.late) /\ UNCHANGED <<obsMade, obsPhase>>
 TMade == Adv /\ R.ev = "made" /\ obsMade' = Pad(R.made) /\ UNCHANGED <<vars, obsPhase>>
 
-TNext == TReset \/ TCall \/ TRun \/ TConn \/ TFail \/ TDie \/ TMade \/ TEnd
+TNext == TReset \/ TCall \/ TRun \/ TConn \/ TFail \/ TDie \/ TPend \/ TUnpend \/ TMade \/ TEnd
 TSpec == TInit /\ [][TNext]_tvars
 
 \* the call / run outcomes are the model's (a bind call fails iff none of its addresses can be bound; the workers start)
 T_B_PhaseAsSpec == obsPhase = phase
 \* C01: every client is answered, by a service built by the factory of its own socket's builder call
 T_C01_OwnListenersService == C01_OwnListenersService
+\* C07: what waited while a service was pending is served by its own listener's service once every service is ready
+T_C07_WaitsThenServed == C07_WaitsThenServed
+\* C07: a client that connects while a service of the worker is pending is not answered yet
+T_C07_NoCallWhilePending == C07_NoCallWhilePending
 \* C07 "rebuilds only it" / C08 "replaced": the number of instances each call's factory has built is the model's
 T_B_MadeAsSpec == (pos > 0 /\ Rec[pos].ev = "made") => \A c \in 1..MaxCalls : obsMade[c] = made[c]
 
